@@ -282,6 +282,22 @@ func anyObjectTypes(c *world.ConsSpec, out *[]string, depth int) {
 	}
 }
 
+func anyTypesContaining(c *world.ConsSpec, sub string, out *[]string, depth int) {
+	if c == nil || depth > 8 {
+		return
+	}
+	if c.K == "any" && strings.Contains(c.Type, sub) {
+		*out = append(*out, c.Type)
+	}
+	anyTypesContaining(c.Elem, sub, out, depth+1)
+	for _, e := range c.Elems {
+		anyTypesContaining(e, sub, out, depth+1)
+	}
+	for _, a := range c.Attrs {
+		anyTypesContaining(a.Cons, sub, out, depth+1)
+	}
+}
+
 func hasKValue(e *world.Expr, k string) bool {
 	if e == nil {
 		return false
@@ -340,6 +356,27 @@ func (o *C19) Check(x *h.Exec, ev *h.Event) {
 		lc := map[string]map[int]bool{}
 		attrKinds := map[string]map[string]bool{}
 		collectLabelCounts(p.Spec.Schema, lc, attrKinds, 0)
+		// inside the content of dynamic blocks (which the model skips): an item
+		// written as the other kind than some body declares under that name
+		var dynWalk func(items []*world.Item, inDyn bool)
+		dynWalk = func(items []*world.Item, inDyn bool) {
+			for _, it := range items {
+				if inDyn {
+					if it.Attr != nil && len(lc[it.Attr.Name]) > 0 {
+						certain = false
+					}
+					if it.Block != nil && len(attrKinds[it.Block.Type]) > 0 {
+						certain = false
+					}
+				}
+				if it.Block != nil {
+					dynWalk(it.Block.Body, inDyn || it.Block.Type == "dynamic")
+				}
+			}
+		}
+		for _, f := range p.Files {
+			dynWalk(f.Spec.Items, false)
+		}
 		for _, f := range p.Files {
 			world.WalkItems(f.Spec.Items, func(it *world.Item, d int) {
 				if it.Block == nil || it.Block.Type == "dynamic" || it.Block.Type == "content" {
@@ -422,9 +459,21 @@ func (o *C19) Check(x *h.Exec, ev *h.Event) {
 						// a key the type does not declare: native syntax decodes the object
 						// item by item and skips that one, JSON (no structural access)
 						// reports every variable - precision the statement leaves open
-						if a != nil && a.Cons != nil {
+						ao := a
+						if ao == nil {
+							ao = mc.Body.Any // the any-attribute of the body stands in
+						}
+						if ao != nil && ao.Cons != nil {
+							// a tuple-typed any-expression: native syntax decodes a written
+							// tuple element by element as literals (no origins inside), JSON
+							// reports every variable - left open for the same reason
+							var tupTypes []string
+							anyTypesContaining(ao.Cons, "tuple(", &tupTypes, 0)
+							if len(tupTypes) > 0 && hasKValue(it.Attr.Expr, "list") {
+								certain = false
+							}
 							var objTypes []string
-							anyObjectTypes(a.Cons, &objTypes, 0)
+							anyObjectTypes(ao.Cons, &objTypes, 0)
 							if len(objTypes) > 0 {
 								it.Attr.Expr.Walk(func(e *world.Expr) {
 									if e.K != "obj" {
